@@ -73,7 +73,7 @@ def gen_case(rng, params, index):
             s = world.Scheduler(doc, rng.fork("hist", k), profile="bindings")
             il, io = s.initial()
             hists.append({"init": {"lines": il, "ops": io}, "groups": s.history(rng.randint(20, params["events"]))})
-        return {"kind": "qtdoc", "profile": "bindings", "doc": doc, "histories": hists, "gen_errors": []}
+        return qtcheck.add_predecessor({"kind": "qtdoc", "profile": "bindings", "doc": doc, "histories": hists, "gen_errors": []}, rng)
     return qtcheck.gen_doc_case(rng, "bindings", params["histories"], rng.randint(max(8, params["events"] // 3), params["events"]))
 
 
